@@ -194,6 +194,23 @@ func H14_lookup() {
 		}
 	}
 	if hEnv("TCELL_TRUECOLOR") == "disable" {
+		// the lookup itself never adds 24-bit sequences: whatever RGB strings the answer has,
+		// a registered entry it can be derived from has natively
+		native := false
+		stem := n2
+		for _, sfx := range []string{"-truecolor", "-256color"} {
+			if strings.HasSuffix(stem, sfx) {
+				stem = stem[:len(stem)-len(sfx)]
+			}
+		}
+		for _, cand := range []string{n2, stem + "-256color", stem + "-88color", stem + "-color", stem} {
+			if terminfoHasRGB(backup, cand) {
+				native = true
+			}
+		}
+		if !native {
+			vsymAssert(fresh.SetFgRGB == "" && fresh.SetBgRGB == "" && fresh.SetFgBgRGB == "", "TCELL_TRUECOLOR=disable: a lookup synthesizes no 24-bit sequences")
+		}
 		// judged where it takes effect: a screen built on the returned entry does not use direct colour
 		fc := fresh
 		if s, e := NewTerminfoScreenFromTtyTerminfo(newHTty(3, 1), &fc); e == nil && s.Init() == nil {
